@@ -190,6 +190,17 @@ func twoWakeUps(name string) c11Script {
 
 func c11Interleavings(t *testing.T, tier string, deadline time.Time) (map[string]any, []report.Viol, error) {
 	scripts := append(c11Scripts(), twoWakeUps("publish and external Acknowledge in quick succession"),
+		// the redelivery that a zero-deadline nack causes counts against flow control
+		// again: with limit 2 only ONE of two further messages may be sent while the
+		// client holds it
+		c11Script{name: "zero-deadline nack, redelivery, then two publishes (limit 2)", fc: actions.FlowControl{MaxMessages: 2, MaxBytes: 1000}, npub: 1, want: 1,
+			client: func(conn *memConn, got <-chan uuid.UUID, w *world.World) {
+				id := <-got
+				conn.settle(id)
+				conn.reqs <- &actions.MessageStreamRequest{Delay: []uuid.UUID{id}, DelaySeconds: 0}
+				<-got // the redelivery (the sender was waiting for messages, not for capacity)
+				w.Pub.Publish(vsql.WithThread(context.Background(), "client"), &pubsubpb.PublishRequest{Topic: c11Topic, Messages: []*pubsubpb.PubsubMessage{{Data: payloadOf(10)}, {Data: payloadOf(10)}}})
+			}},
 		// how the Google client library works: limit 2, both outstanding messages
 		// acknowledged by ONE external Acknowledge, two more must follow
 		c11Script{name: "limit 2, one external Acknowledge of both outstanding messages", fc: actions.FlowControl{MaxMessages: 2, MaxBytes: 10_000_000}, npub: 4, want: 4, warm: true, warmN: 2,
@@ -316,6 +327,9 @@ func streamInterleavings(t *testing.T, prop string, scripts []c11Script, tier st
 					vmu.Lock()
 					defer vmu.Unlock()
 					out[d.ID.String()] = len(d.Payload)
+					// a message that is sent AGAIN after the client settled it (nack) is
+					// held by the client again
+					delete(settled, d.ID.String())
 					n := 0
 					for id := range out {
 						if !settled[id] {
@@ -432,6 +446,9 @@ func streamInterleavings(t *testing.T, prop string, scripts []c11Script, tier st
 			}
 			complete = complete && ok
 			per[sc.name] = map[string]any{"schedules": res.Executions, "decisions": res.Decisions, "preemption_bound": bound, "complete": ok, "diverged": res.Diverged, "outcomes": res.Outcomes}
+			if res.DivergedExample != "" {
+				fmt.Printf("  first divergence: %.600s\n", res.DivergedExample)
+			}
 			fmt.Printf(prop+"/interleavings %s: schedules=%d bound=%d complete=%v diverged=%d outcomes=%v\n", sc.name, res.Executions, bound, ok, res.Diverged, res.Outcomes)
 		}
 	})
